@@ -285,6 +285,10 @@ epochLoop:
 				if tx.Slot < int(until) {
 					break epochLoop
 				}
+				if uint64(tx.Slot) >= before {
+					// newer than the requested range (before is exclusive)
+					continue
+				}
 				sig, err := tx.Signature()
 				if err != nil {
 					return nil, fmt.Errorf("error while getting signature: %w", err)
